@@ -120,25 +120,63 @@ class MicroPipeline(Scenario):
         b2 = micro_body(H, cx, self.args["b"], M2, self.args.get("E2", 1.0))
         return b1, b2
 
+    @staticmethod
+    def spied(H, ba, bb):
+        """contact_forces(ba, bb) plus the ContactSurface it handed to accumulate_wrenches (observation only)."""
+        import distance3d.hydroelastic_contact._interface as I
+        seen = []
+        orig = I.accumulate_wrenches
+
+        def spy(cs, r1, r2):
+            seen.append(cs)
+            return orig(cs, r1, r2)
+        I.accumulate_wrenches = spy
+        try:
+            res = H.contact_forces(ba, bb)
+        finally:
+            I.accumulate_wrenches = orig
+        return res, (seen[0] if seen else None)
+
+    @staticmethod
+    def cs_total(cs):
+        """World-frame total of the per-polygon contact forces (rotated by the frame's R here, not by the library's
+        _transform_wrenches, see K03) and the total contact area."""
+        if cs is None or not cs.intersection:
+            return [0.0, 0.0, 0.0, 0.0]
+        fs = [list(f) for f in cs.contact_forces]
+        f = [sum(x[k] for x in fs) for k in range(3)]
+        R = [list(r)[:3] for r in list(cs.frame2world)[:3]]
+        return SH.matvec(R, f) + [sum(list(cs.contact_areas))]
+
     def call(self, cx, inp):
         import distance3d.hydroelastic_contact as H
         mode = self.args["mode"]
         b1, b2 = self.bodies(cx, inp)
         out = {}
+
+        def total(d):
+            # world-frame contact forces from the details (rotated properly by transform_directions; does not go
+            # through _transform_wrenches, see K03) and the total contact area
+            if not d:
+                return [0.0, 0.0, 0.0, 0.0]
+            fs = d["contact_forces"]
+            return [sum(f[k] for f in fs) for k in range(3)] + [sum(list(d["contact_areas"]))]
         if mode == "forces":
-            hit, w12, w21 = H.contact_forces(b1, b2)
-            hit_r, w12r, w21r = H.contact_forces(b1, b2)           # repeated on the re-expressed bodies
+            (hit, w12, w21), cs = self.spied(H, b1, b2)
+            (hit_r, w12r, w21r), cs_r = self.spied(H, b1, b2)      # repeated on the re-expressed bodies
             c1, c2 = self.bodies(cx, inp)
-            hit_s, w12s, w21s = H.contact_forces(c2, c1)           # swapped
+            (hit_s, w12s, w21s), cs_s = self.spied(H, c2, c1)      # swapped
             out = {"hit": bool(hit), "w12": w12, "w21": w21, "hit_r": bool(hit_r), "w12r": w12r, "w21r": w21r,
-                   "hit_s": bool(hit_s), "w12s": w12s, "w21s": w21s}
+                   "hit_s": bool(hit_s), "w12s": w12s, "w21s": w21s, "tot": self.cs_total(cs), "tot_s": self.cs_total(cs_s),
+                   "tot_r": self.cs_total(cs_r)}
         elif mode == "motion":
-            hit, w12, w21 = H.contact_forces(b1, b2)
+            (hit, w12, w21), cs = self.spied(H, b1, b2)
             Rc = R0[self.args["rc"]]
             tc = self.args["tc"]
             m1, m2 = self.bodies(cx, inp, (Rc, tc))
-            hit_m, w12m, w21m = H.contact_forces(m1, m2)
-            out = {"hit": bool(hit), "w12": w12, "w21": w21, "hit_m": bool(hit_m), "w12m": w12m, "w21m": w21m}
+            (hit_m, w12m, w21m), cs_m = self.spied(H, m1, m2)
+            out = {"hit": bool(hit), "w12": w12, "w21": w21, "hit_m": bool(hit_m), "w12m": w12m, "w21m": w21m,
+                   "tot": self.cs_total(cs), "tot_m": self.cs_total(cs_m)}
         elif mode == "history":
             # interleaved calls on the SAME objects: (b1,b2), (b2,b1) re-expresses b2 in b1's frame, then b2 is moved
             # IN PLACE (as the library's own examples do), then (b1,b2) again; must equal fresh bodies at the final poses
@@ -161,13 +199,6 @@ class MicroPipeline(Scenario):
             hit_f, w12_f, w21_f, det_f = H.contact_forces(f1, f2, return_details=True)
             tp = b1.tetrahedra_points
 
-            def total(d):
-                # world-frame contact forces from the details (rotated properly by transform_directions; does not go
-                # through _transform_wrenches, see K03) and the total contact area
-                if not d:
-                    return [0.0, 0.0, 0.0, 0.0]
-                fs = d["contact_forces"]
-                return [sum(f[k] for f in fs) for k in range(3)] + [sum(list(d["contact_areas"]))]
             out = {"hit": bool(hit3), "w12": w12_3, "w21": w21_3, "hit_f": bool(hit_f), "w12f": w12_f, "w21f": w21_f,
                    "tot": total(det3_), "tot_f": total(det_f), "com": b1.com, "tp": tp}
         elif mode == "broad":
@@ -185,6 +216,17 @@ class MicroPipeline(Scenario):
 
     def observable(self, out):
         return [out.get("hit"), out.get("hit_b"), [list(p) for p in out.get("pairs_brute", [])]]
+
+    @staticmethod
+    def same_flag(ob, name, h1, h2, area1, area2):
+        """Flags must agree.  A disagreement where the call that reports a contact found a total contact area of at
+        most 1e-9 (the bodies merely touch: the flag is a tie there) is reported under its own name (K07)."""
+        if h1 == h2:
+            ob.require(name, exact=True)
+            return
+        tiny = (area1 if h1 else area2) <= 1e-9
+        ob.require(name, exact=tiny)
+        ob.require(name + "_touching", exact=NOT(tiny))
 
     def check(self, cx, inp, out, ob):
         mode = self.args["mode"]
@@ -215,15 +257,20 @@ class MicroPipeline(Scenario):
         if not out["hit"]:
             ob.require("no_intersection_zero_wrenches", exact=AND(*[x == 0 for x in list(out["w12"]) + list(out["w21"])]))
         if mode == "forces":
-            ob.require("repeat_same_flag", exact=(out["hit"] == out["hit_r"]))
+            self.same_flag(ob, "repeat_same_flag", out["hit"], out["hit_r"], out["tot"][3], out["tot_r"][3])
             ob.require("repeat_reproduces", exact=AND(vec_eq(list(out["w12"]), list(out["w12r"])), vec_eq(list(out["w21"]), list(out["w21r"]))),
                        tol=AND(vec_close(list(out["w12"]), list(out["w12r"]), tolf), vec_close(list(out["w21"]), list(out["w21r"]), tolf)))
-            ob.require("swap_same_flag", exact=(out["hit"] == out["hit_s"]))
+            self.same_flag(ob, "swap_same_flag", out["hit"], out["hit_s"], out["tot"][3], out["tot_s"][3])
+            # the same relation on the per-polygon forces of the details, which do not pass through _transform_wrenches
+            # (K03 distorts the wrench of whichever call has a displaced second body - in the swapped call that is
+            # the swept body): total force negated, total area unchanged
+            ts = [-x for x in out["tot_s"][:3]] + [out["tot_s"][3]]
+            ob.require("swap_negates_detail_force_total_keeps_area", exact=vec_eq(out["tot"], ts), tol=vec_close(out["tot"], ts, tolf))
             ob.require("swap_swaps_forces", exact=AND(vec_eq(f12, list(out["w21s"][:3])), vec_eq(f21, list(out["w12s"][:3]))),
                        tol=AND(vec_close(f12, list(out["w21s"][:3]), tolf), vec_close(f21, list(out["w12s"][:3]), tolf)))
         if mode == "motion":
             Rc = R0[self.args["rc"]]
-            ob.require("motion_same_flag", exact=(out["hit"] == out["hit_m"]))
+            self.same_flag(ob, "motion_same_flag", out["hit"], out["hit_m"], out["tot"][3], out["tot_m"][3])
             ob.require("motion_rotates_forces", exact=AND(vec_eq(SH.matvec(Rc, f12), list(out["w12m"][:3])),
                                                           vec_eq(SH.matvec(Rc, f21), list(out["w21m"][:3]))),
                        tol=AND(vec_close(SH.matvec(Rc, f12), list(out["w12m"][:3]), tolf),
